@@ -715,4 +715,52 @@ pub struct ServerPool {'''),
     dict(id="c20-unbounded-channel-size-from-config", prop="C20", file="src/mirrors.rs", expect="C20-R1",
          what="mirror queue capacity no longer a constant",
          old='''            let (bytes_tx, bytes_rx) = channel::<Bytes>(10);''', new='''            let (bytes_tx, bytes_rx) = channel::<Bytes>(addresses.len() * 1000);'''),
+    # ------------------------------------------------------------------ C11
+    dict(id="c11-inline-client", prop="C11", file="src/main.rs", expect="C11-R1",
+         what="client handled inline in the accept loop instead of its own task",
+         old='''                    tokio::task::spawn(async move {
+                        let start = chrono::offset::Utc::now().naive_utc();
+''', new='''                    let _ = (async move {
+                        let start = chrono::offset::Utc::now().naive_utc();
+'''),
+    dict(id="c11-panic-abort", prop="C11", file="Cargo.toml", expect="C11-R1",
+         what="panic = abort in the release profile",
+         old='''[dev-dependencies]''', new='''[profile.release]
+panic = "abort"
+
+[dev-dependencies]'''),
+    dict(id="c11-ban-on-client-error", prop="C11", file="src/client.rs", expect="C11-R4",
+         what="an unknown prepared statement name bans the server",
+         old='''            None => {
+                return Err(Error::ClientError(format!(
+                    "prepared statement `{}` not found",
+                    client_name
+                )))
+            }''', new='''            None => {
+                pool.ban(address, BanReason::MessageSendFailed, Some(&self.stats));
+                return Err(Error::ClientError(format!(
+                    "prepared statement `{}` not found",
+                    client_name
+                )))
+            }'''),
+    dict(id="c11-unbounded-startup", prop="C11", file="src/client.rs", expect="C11-R5",
+         what="startup packet length no longer bounded",
+         old='''    if !(8..=MAX_STARTUP_PACKET_LENGTH).contains(&len) {
+        return Err(Error::ClientBadStartup);
+    }
+''', new='''    if len < 8 {
+        return Err(Error::ClientBadStartup);
+    }
+'''),
+    dict(id="c11-exit-on-bad-startup", prop="C11", file="src/client.rs", expect="C11-R1",
+         what="an unexpected startup code exits the process",
+         old='''        _ => Err(Error::ProtocolSyncError(format!(
+            "Unexpected startup code: {}",
+            code
+        ))),''', new='''        _ => {
+            if code == 0 { std::process::exit(1); }
+            Err(Error::ProtocolSyncError(format!(
+            "Unexpected startup code: {}",
+            code
+        )))},'''),
 ]
